@@ -207,6 +207,7 @@ def _(E, p):
     out += [np.array([s(0.6) for s in g.radial_component_splines(f)])]
     interp = g.interpolate(f)
     out += [interp(pts), interp(pts, deriv=1), interp(pts, deriv=1, deriv_spherical=True), interp(pts, deriv=2, only_radial_deriv=True)]
+    out += [interp(pts, deriv=1, only_radial_deriv=True), interp(pts, deriv=3, only_radial_deriv=True)] if p % 2 else [interp(pts, deriv=1, deriv_spherical=True, only_radial_deriv=True)]
     out += [g.convert_cartesian_to_spherical(pts, E.arr("sph_center", np.array([0.0, 0.2, 0.0]))), g.convert_cartesian_to_spherical()]
     out += [g.get_localgrid(E.arr("lc", np.array([0.1, 0.0, 0.0])), 0.8)]
     return out
@@ -281,7 +282,7 @@ def _(E, p):
     f = E.arr("func_vals", _gauss(mg.points, (0, 0, 0), 0.9) + _gauss(mg.points, (0, 0, 1.8), 0.7))
     pts = E.arr("points", _pts3(6, 31, 1.0) + np.array([0, 0, 0.9]))
     it = mg.interpolate(f)
-    return [it(pts), it(pts, deriv=1)]
+    return [it(pts), it(pts, deriv=1), it(pts, deriv=1, deriv_spherical=True), it(pts, deriv=2, only_radial_derivs=True)]
 
 
 @entry("becke", 3.0)
@@ -341,6 +342,8 @@ def _(E, p):
     out = [g, g.closest_point(E.arr("point", np.array([0.1, -0.2, 0.3]))) if p % 2 == 0 else 0.0, g.coordinates_to_index(E.tup("coords", (1, 2, 3))), np.asarray(g.index_to_coordinates(17), dtype=float)]
     if p % 2 == 0:
         out += [g.interpolate(pts, vals, method="linear"), g.interpolate(pts, vals, method="cubic"), g.interpolate(pts, vals, use_log=True, nu_x=1)]
+        out += [g.interpolate(pts, vals, method="nearest"), g.interpolate(pts, vals, nu_y=1), g.interpolate(pts, vals, nu_z=2), g.interpolate(pts, vals, use_log=True, nu_z=1),
+                g.closest_point(E.arr("point", np.array([0.1, -0.2, 0.3])), which="origin")]
     g2 = UniformGrid.from_molecule(E.arr("atcorenums", np.array([8.0, 1.0])), E.arr("atcoords", np.array([[0.0, 0.0, 0.0], [0.0, 0.0, 1.8]])), spacing=1.0, extension=1.0, rotate=bool(p % 2))
     return out + [g2]
 
@@ -494,7 +497,8 @@ def _(E, p):
     g, tf = _poisson_setup(E, 12, 4)
     rho = E.arr("func_vals", _gauss(g.points, g.center, 1.2))
     params = E.dct("ode_params", {"tol": 1e-4} if p % 2 else {})
-    pot = solve_poisson_bvp(g, rho, InverseRTransform(tf), include_origin=bool(p % 3), ode_params=params if p % 4 else None)
+    pot = solve_poisson_bvp(g, rho, InverseRTransform(tf), include_origin=bool(p % 3), ode_params=params if p % 4 else None,
+                            boundary=[None, 0.0, 3.5, None, -1.0][p % 5], remove_large_pts=[1e6, 50.0, None][p % 3])
     pts = E.arr("points", _pts3(5, 90, 0.8))
     return [pot(pts)]
 
@@ -571,7 +575,7 @@ def _(E, p):
     out = [u.generate_real_spherical_harmonics(3, theta, phi), u.generate_real_spherical_harmonics_scipy(3, theta, phi), u.generate_derivative_real_spherical_harmonics(2, theta, phi)]
     pts = E.arr("points", _pts3(8, 110, 1.0))
     sph = u.convert_cart_to_sph(pts, E.arr("center", np.array([0.1, 0.2, 0.3])))
-    out += [sph, u.solid_harmonics(2, E.arr("sph_pts", np.array(sph))), u.get_cov_radii(E.arr("atnums", np.array([1, 6, 8]), dtype=int))]
+    out += [sph, u.solid_harmonics(2, E.arr("sph_pts", np.array(sph))), u.get_cov_radii(E.arr("atnums", np.array([1, 6, 8]), dtype=int), ["bragg", "cambridge", "alvarez"][p % 3])]
     out.append(np.asarray(u.generate_orders_horton_order(2, ["cartesian", "radial", "pure", "pure-radial", "cartesian", "pure"][p % 6], 3), dtype=float))
     out.append(u.convert_derivative_from_spherical_to_cartesian(0.3, 0.2, 0.1, 1.2, 0.4, 0.9))
     return out
